@@ -15,6 +15,8 @@ import YalafiVerif.Proofs.Utils
 import YalafiVerif.Proofs.Lines
 import YalafiVerif.Proofs.PlainVerb
 import YalafiVerif.Generated.Init
+import YalafiVerif.Properties.PlainAccentStmt
+import YalafiVerif.Properties.PlainGroupStmt
 namespace Yalafi
 
 theorem C02_scan_slice (T : Tables) (h : T.WFScan) (src : Str) :
